@@ -65,6 +65,7 @@ def env():
         preds = {
             "even": lambda v: isinstance(v, int) and v % 2 == 0,
             "nonempty_str": lambda v: isinstance(v, str) and len(v) > 0,
+            "nonempty_dict": lambda v: isinstance(v, dict) and len(v) > 0,
         }
         vtypes = {k: validated(f, name=k) for k, f in preds.items()}
         _ENV.update(
@@ -324,7 +325,7 @@ BASE = (
     + [["literal", c] for c in LITERALS]
     + [["bounded", "int", b] for b in BOUNDS_POOL if all(isinstance(x, int) for x in b.values())]
     + [["bounded", "float", b] for b in BOUNDS_POOL]
-    + [["validated", "even"], ["validated", "nonempty_str"]]
+    + [["validated", "even"], ["validated", "nonempty_str"], ["validated", "nonempty_dict"]]
 )
 REDUCED = [["any"], ["int"], ["float"], ["str"], ["none"], ["cls", "A"], ["literal", ["a", "b", 1]], ["bounded", "int", {"ge": 0}],
            ["bounded", "float", {"gt": 0, "le": 1.0}]]
@@ -340,6 +341,8 @@ KEY_TYPES = [["int"], ["str"], ["float"], ["bool"], ["any"], ["literal", ["a", "
 
 def hashable_type(D):
     k = D[0]
+    if k == "validated" and D[1] == "nonempty_dict":
+        return False
     if k in HASHABLE_KINDS:
         return True
     if k in ("tuple", "union"):
@@ -527,7 +530,8 @@ def gen_value(src, D, good):
         pool = _bound_values(D, good) or [None]
         return pool[src.choice(len(pool))]
     if k == "validated":
-        pool = {"even": ([0, 2, -4], [1, 3, "a", 2.0, None]), "nonempty_str": (["a", "zz"], ["", 1, None, ["list", ["a"]]])}[D[1]]
+        pool = {"even": ([0, 2, -4], [1, 3, "a", 2.0, None]), "nonempty_str": (["a", "zz"], ["", 1, None, ["list", ["a"]]]),
+                "nonempty_dict": ([["dict", [["a", 1]]], ["dict", [[1, "one"]]]], [["dict", []], 1, None, "a"])}[D[1]]
         pool = pool[0] if good else pool[1]
         return pool[src.choice(len(pool))]
     raise AssertionError(D)
@@ -570,9 +574,45 @@ def run_case(ctx, case):
         inner = _blame(D, v)
         ctx.fail(f"{'accepts' if got else 'rejects'}:{inner}", case, f"check_type({v!r}, {T!r}) -> {got!r}, reference says {want!r}")
         return
+    if not assignment_route(ctx, case, D, T, v, want):
+        return
     ctx.count("accepted" if want else "rejected")
     ctx.count(f"kind:{D[0]}")
     ctx.case(case, depth(D) >= 2 and case.get("mode") in ("good", "bad"))
+
+
+_HOSTS = {}
+
+
+def assignment_route(ctx, case, D, T, v, want):
+    """'A value is accepted for an annotation exactly when it conforms to it' where annotations are used: on a managed attribute
+    declared with the annotation, through assignment and through the constructor: a conforming value is never refused.
+    (What is stored - collections are copied, sequences cast - and the refusal of non-conforming values belong to C03.)"""
+    from spec_classes import spec_class
+
+    key = repr(D)
+    if key not in _HOSTS:
+        try:
+            _HOSTS[key] = spec_class(bootstrap=True)(type("Host", (), {"__annotations__": {"x": T}, "__module__": "vf.generated"}))
+        except Exception as e:
+            _HOSTS[key] = e
+    host = _HOSTS[key]
+    if isinstance(host, Exception):
+        ctx.fail(f"assign:declare:{D[0]}:{type(host).__name__}", case, f"declaring an attribute x: {T!r} raised {host!r}")
+        return False
+    for route in ("setattr", "ctor"):
+        try:
+            if route == "setattr":
+                obj = host()
+                obj.x = v
+            else:
+                obj = host(x=v)
+        except Exception as e:
+            if want:
+                ctx.fail(f"assign:{route}:rejects:{_blame(D, v)}", case, f"{route} of the conforming value {v!r} to an attribute x: {T!r} raised {e!r}")
+                return False
+    ctx.count("assignment_routes")
+    return True
 
 
 def _blame(D, v):
